@@ -352,7 +352,8 @@ end
 		fmt.Fprintf(&b, "wg := WaitGroup(%d)\n", nt*sites)
 		for i := 0; i < sites; i++ {
 			for t := 0; t < nt; t++ {
-				fmt.Fprintf(&b, "go talk%d(%s, wg)\n", i, kinds[(t+i)%len(kinds)])
+				// receivers of the same class at one site are as interesting as different ones
+				fmt.Fprintf(&b, "go talk%d(%s, wg)\n", i, kinds[r.Intn(1+r.Intn(len(kinds)))])
 			}
 		}
 		b.WriteString("wg.wait\nprintln \"end\"\n")
